@@ -135,6 +135,10 @@ def random_processes(rng, L, nmax=4, allow_long=True):
             s = int(rng.integers(0, L - 2))
             t = int(rng.integers(s + 2, L))
             procs.append({"name": str(rng.choice(TWO_LONG)), "sites": [s, t], "strength": g})
+    # a legal corner: some processes with strength exactly 0 (NoiseModel.sample clamps negative draws to 0), anywhere in the list
+    if len(procs) >= 2 and rng.random() < 0.2:
+        k = int(rng.integers(0, len(procs) - 1))
+        procs[k]["strength"] = 0.0
     return procs
 
 
@@ -213,6 +217,41 @@ def dissipation_case(rng, L, local_dt=None):
     desc = {"L": L, "dt": dt, "processes": [(p["name"], p["sites"], p["strength"]) for p in nm.processes]}
     dev = None if got is None else float(np.linalg.norm(got - want))
     return desc, order, err, dev, expr
+
+
+def mcwf_operators_case(rng, L):
+    """preprocess_mcwf: the jump operators are sqrt(gamma_k) L_k of the processes with gamma_k > 0, in list order, each with ITS OWN
+    strength, and H_eff = H - i/2 sum_k gamma_k L_k^+ L_k.  Returns a description and None or what differs."""
+    from mqt.yaqs.analog.mcwf import preprocess_mcwf
+    from mqt.yaqs.core.data_structures.networks import MPO, MPS
+    from mqt.yaqs.core.data_structures.noise_model import NoiseModel
+    from mqt.yaqs.core.data_structures.simulation_parameters import AnalogSimParams, Observable
+
+    procs = random_processes(rng, L, nmax=5, allow_long=True)
+    for k, p in enumerate(procs):
+        if p["strength"] > 0:
+            p["strength"] = float(p["strength"]) + 0.017 * (k + 1)
+    if rng.random() < 0.5:
+        procs.insert(int(rng.integers(0, len(procs) + 1)), {"name": str(rng.choice(["pauli_z", "lowering"])), "sites": [int(rng.integers(0, L))], "strength": 0.0})
+    nm = NoiseModel([dict(p) for p in procs])
+    J, g = float(rng.uniform(0.3, 1.2)), float(rng.uniform(0.3, 1.0))
+    par = AnalogSimParams([Observable("z", 0)], elapsed_time=0.1, dt=0.1, solver="MCWF", show_progress=False)
+    ctx = preprocess_mcwf(MPS(L, state="zeros"), MPO.ising(L, J, g), nm, par)
+    desc = {"L": L, "processes": [(p["name"], p["sites"], p["strength"]) for p in nm.processes]}
+    want = [np.sqrt(p["strength"]) * dense_op(p, L) for p in nm.processes if p["strength"] > 0]
+    got = [np.asarray(op.todense() if hasattr(op, "todense") else op) for op in ctx.jump_ops]
+    if len(got) != len(want):
+        return desc, f"{len(got)} jump operators for {len(want)} processes of positive strength"
+    for k, (a, b) in enumerate(zip(got, want)):
+        if a.shape != b.shape or not np.allclose(a, b, atol=1e-12):
+            return desc, f"jump operator {k} is not sqrt(gamma) L of the {k}-th process of positive strength"
+    heff = dense.ising(L, J, g).astype(complex)
+    for b in want:
+        heff = heff - 0.5j * (b.conj().T @ b)
+    h = np.asarray(ctx.heff.todense() if hasattr(ctx.heff, "todense") else ctx.heff)
+    if not np.allclose(h, heff, atol=1e-10):
+        return desc, "H_eff is not H - i/2 sum gamma L^+ L"
+    return desc, None
 
 
 def lottery_case(rng, L):
